@@ -282,7 +282,12 @@ def _independence(shard, ctx, res, only):
         res.violation({"site": f"kernels.{kernel}", "symptom": "kernel cannot be split at its prange loop", "detail": type(e).__name__}, {"shard": shard, "inner": None}, repr(e))
         return
     if sk.carried:
+        # a scalar (re)assigned in the body and defined before the loop is a numba reduction / carried variable: the nested-function model
+        # cannot express it; it is left to the compiled conformance run and is not a violation by itself
         res.notes.append(f"{kernel}: loop body assigns names defined before the loop {sorted(sk.carried)} (scalar carried across iterations): undecided by the split model")
+        res.outcome("independence/undecided_scalar_carried")
+        res.evaluations += 1
+        return
     for case in _cases(kernel, "lattice"):
         if only is not None and case["params"] != only:
             continue
